@@ -323,6 +323,14 @@ def hand_cases():
     add("multi-unknown-in-files", {b"info": {b"name": b"foo", b"piece length": 16384, b"pieces": pieces,
                                              b"files": [{b"length": 5, b"path": [b"a"], b"attr": b"x", b"sha1": b"\x00" * 20}]}})
     add("int-too-big", {b"info": ext(base, {b"x": Raw(b"i9223372036854775808e")})})
+    # integers between 2^63 and 2^64 in fields the typed loader reads as u64, together with a key it does not model: the
+    # generic reader (i64) refuses these files, so no command may accept them on the strength of the typed reading alone
+    # (added after seeded change C04-6: `link` falling back to the hash of the re-serialised struct)
+    for nm, v in (("2^63", b"i9223372036854775808e"), ("2^64-1", b"i18446744073709551615e")):
+        add("u64-creation-date-%s-unknown-key" % nm, {b"creation date": Raw(v), b"info": ext(base, {b"x": 1})})
+        add("u64-creation-date-%s" % nm, {b"creation date": Raw(v), b"info": base})
+        add("u64-piece-length-%s-unknown-key" % nm, {b"info": ext(base, {b"piece length": Raw(v), b"x": b"y"})})
+        add("u64-length-%s-unknown-key" % nm, {b"info": ext(base, {b"length": Raw(v), b"x": [1]})})
     add("int-too-small", {b"info": ext(base, {b"x": Raw(b"i-9223372036854775809e")})})
     for n in (2046, 2047, 2048, 2049):
         add("deep-%d" % n, {b"info": ext(base, {b"deep": Raw(b"l" * n + b"e" * n)})})
@@ -637,7 +645,7 @@ def shrink_hook(ctx, st, name):
 def e2e(ctx, cases, impl, accepted, ncorpus, nvalid):
     """the real binary on accepted files: show, show --json, link agree and equal SHA-1(span)"""
     r = ctx.rng
-    pick = [i for i in accepted if i < ncorpus]
+    pick = list(range(ncorpus))        # the whole corpus runs on the real binary, accepted by the hook or not
     rest = [i for i in accepted if ncorpus <= i < nvalid]
     r.shuffle(rest)
     pick += rest[:ctx.n(450, 12000)]
